@@ -20,6 +20,22 @@ func (g *FuncGen) execCall(x *ssa.Call, st *State) error {
 	}
 	c, callee := g.eng.contractForCall(com)
 	sig := com.Signature()
+	// ghost assertions of the enclosing contract, in the state just before this call
+	if g.depth == 0 && g.c != nil && callee != nil {
+		for _, ac := range g.c.AtCalls {
+			if strings.HasSuffix(shortKey(callee.String()), ac.Callee) {
+				env := &Env{g: g, vars: map[string]Val{}, heap: st.heap, old: g.entryHeap, pkg: g.pkg, entryVars: g.paramTerms}
+				for k, v := range g.paramTerms {
+					env.vars[k] = v
+				}
+				t, err := g.evalBool(ac.Clause.Expr, env)
+				if err != nil {
+					return fmt.Errorf("%s: at-call %s: %v", g.fname, ac.Callee, err)
+				}
+				g.oblige("assert", ac.Clause.Label, st.reach, t, "before the call to "+ac.Callee+": "+ac.Clause.Src, pos)
+			}
+		}
+	}
 	// argument terms (receiver first for invoke)
 	var args []string
 	var argTypes []types.Type
@@ -169,26 +185,35 @@ func (g *FuncGen) execCall(x *ssa.Call, st *State) error {
 		g.assumeType(res[i], sig.Results().At(i).Type(), g.allocTerm(st.heap), nr)
 	}
 	// footprint: objects outside it keep their fields in every modified field/cell map
+	// (an item only speaks for maps of its own struct type)
 	if len(c.Footprint) > 0 {
-		var fps []string
+		var items []Val
 		for _, fe := range c.Footprint {
 			v, err := g.eval(fe, pre)
 			if err != nil {
 				return fmt.Errorf("%s: call to %s: footprint %s: %v", g.fname, c.Key, fe, err)
 			}
-			fps = append(fps, fmt.Sprintf("(= r %s)", v.Term))
-		}
-		in := fps[0]
-		if len(fps) > 1 {
-			in = "(or " + strings.Join(fps, " ") + ")"
+			items = append(items, v)
 		}
 		for _, m := range mods {
 			if m == "*" || m == "$alloc" {
 				continue
 			}
 			srt := g.eng.sortOfMap(g, m)
-			if srt == "" || !(strings.HasPrefix(m, "F:") || strings.HasPrefix(m, "C:")) {
+			if srt == "" || !(strings.HasPrefix(m, "F:") || strings.HasPrefix(m, "C:") || strings.HasPrefix(m, "G:")) {
 				continue
+			}
+			var fps []string
+			for _, it := range items {
+				if footprintApplies(it.Type, m) {
+					fps = append(fps, g.inFootprint(it, "r", pre.heap))
+				}
+			}
+			in := "false"
+			if len(fps) == 1 {
+				in = fps[0]
+			} else if len(fps) > 1 {
+				in = "(or " + strings.Join(fps, " ") + ")"
 			}
 			after := g.heapGet(st.heap, m, srt)
 			before := g.heapGet(preHeap, m, srt)
@@ -412,6 +437,50 @@ func (g *FuncGen) inlineCall(callee *ssa.Function, args []string, st *State) (re
 		results = append(results, rc)
 	}
 	return results, true
+}
+
+// inFootprint: membership of reference variable r in one footprint item: a
+// single object, or (for a slice of pointers) any of its elements.
+func (g *FuncGen) inFootprint(v Val, r string, h *Heap) string {
+	if v.Type != nil {
+		if sl, ok := v.Type.Underlying().(*types.Slice); ok {
+			em := g.elemMap(sl.Elem())
+			g.nameSeq++
+			iv := q(fmt.Sprintf("fi!%d", g.nameSeq))
+			return fmt.Sprintf("(exists ((%s Int)) (and (<= 0 %s) (< %s (s_len %s)) (= (select (select %s (s_arr %s)) (sidx %s %s)) %s)))", iv, iv, iv, v.Term, g.heapGet(h, em.Name, em.Sort), v.Term, v.Term, iv, r)
+		}
+	}
+	return fmt.Sprintf("(= %s %s)", r, v.Term)
+}
+
+// footprintApplies: does a footprint item of type t (pointer or slice of pointers)
+// cover objects stored in heap map m ("F:<struct>.<field>", "C:<type>", "G:<struct>.$x")?
+func footprintApplies(t types.Type, m string) bool {
+	if t == nil {
+		return true
+	}
+	var elem types.Type
+	switch u := t.Underlying().(type) {
+	case *types.Pointer:
+		elem = u.Elem()
+	case *types.Slice:
+		if p, ok := u.Elem().Underlying().(*types.Pointer); ok {
+			elem = p.Elem()
+		}
+	}
+	if elem == nil {
+		return true
+	}
+	name := typeName(elem)
+	switch {
+	case strings.HasPrefix(m, "F:"), strings.HasPrefix(m, "G:"):
+		rest := m[2:]
+		k := strings.LastIndex(rest, ".")
+		return k > 0 && rest[:k] == name
+	case strings.HasPrefix(m, "C:"):
+		return m[2:] == name
+	}
+	return true
 }
 
 func shortKey(k string) string {
